@@ -1,0 +1,51 @@
+//go:build verif
+
+package datastructures
+
+// Contracts for the deductive checker in /verif (comment-only; compiled only under the verif tag).
+//
+// Interface-level model of sets (any implementation): sset(s) is the abstract set value held by the object s,
+// sin(S, x) membership, scard(S) cardinality, sadd(S, x) insertion. These contracts are ASSUMED (the generic hash set
+// implementations are not verified); every use is listed in the evidence.
+//@ ghostfield sset V
+//@ ghost func sin(S V, x V) bool
+//@ ghost func scard(S V) Int
+//@ ghost func sadd(S V, x V) V
+//@ theory sets
+//@ axiom SAddIn: forall S, x, y V :: sin(sadd(S, x), y) == (sin(S, y) || y == x)
+//@ axiom SCardNonNeg: forall S V :: scard(S) >= 0
+//@ axiom SCardAdd: forall S, x V :: scard(sadd(S, x)) == ite(sin(S, x), scard(S), scard(S) + 1)
+//@ axiom SCardEmpty: forall S V :: scard(S) == 0 ==> forall x V :: !sin(S, x)
+//@ end
+
+//@ func AbstractSet.Contains
+//@   assumed
+//@   purefn
+//@   ensures result == sin(sset(recv), box(e))
+//@ func immutableSet.Size
+//@   assumed
+//@   purefn
+//@   ensures result == scard(sset(recv))
+//@ func immutableSet.IsSubSet
+//@   assumed
+//@   purefn
+//@   ensures result == forall y V :: sin(sset(recv), y) ==> sin(sset(of), y)
+//@ func immutableSet.List
+//@   assumed
+//@   ensures forall y V :: sin(sset(recv), y) == exists j int :: 0 <= j && j < len(result) && box(result[j]) == y
+//@   ensures len(result) == scard(sset(recv))
+//@ func mutableSet.Add
+//@   assumed
+//@   modifies sset(recv)
+//@   ensures sset(recv) == sadd(old(sset(recv)), box(e))
+//@ func MutableSet.Freeze
+//@   assumed
+//@   ensures sset(result) == sset(recv)
+// (the set reading of Equal applies only where the receiver is a set: it also has IsSubSet)
+//@ func Equatable.Equal
+//@   assumed
+//@   purefn
+//@   opt recvhas=IsSubSet
+//@   ensures result == setEq(recv, rhs)
+// setEq(a, b): a and b are set objects holding the same elements (only meaningful for sets)
+//@ pure func setEq(a V, b V) bool = forall y V :: sin(sset(a), y) == sin(sset(b), y)
